@@ -4,7 +4,7 @@ All checks must stay silent (exit 0)."""
 import ast, glob, os, shutil, subprocess, sys, tempfile
 from concurrent.futures import ThreadPoolExecutor
 HERE = os.path.dirname(os.path.dirname(os.path.abspath(__file__)))
-PIDS = ['C%02d' % i for i in range(1, 21) if i != 15]
+PIDS = ['C%02d' % i for i in range(1, 21)]
 
 
 def main():
